@@ -23,6 +23,14 @@ def replay(ctx, spec, res, path):
     spec["explore"](ctx, res, replay_ops=ops)
 
 
+def _gen_late(which, fname):
+    """gen_table is defined further down; resolve it at call time (same key, so setup.sh regenerates once)"""
+    def g(ctx):
+        return gen_table(which, fname)(ctx)
+    g.key = which
+    return g
+
+
 def n_for(ctx, quick, thorough):
     return quick if ctx.tier == "quick" else thorough
 
@@ -58,15 +66,25 @@ def _cdrfile_common(ctx, res, replay_ops, want_spec):
                               "or has another length than the format prescribes" % ("C15" if want_spec else "C14", t[2], t[3]),
                               [op, "# impl:  " + im[:300], "# model: " + mo[:300]])
             continue
-        if kind != "rt":
+        if kind not in ("rt", "over", "rewrite"):
             # outside the property's domain (non-well-formed structures, damaged files):
             # model fidelity is reported, it does not decide the property
             agree = (im == mo) or (kind == "dec" and mo == "panic")
             res.outside_domain[kind + (":agree" if agree else ":differ")] += 1
             continue
         res.evaluations += 1
-        res.dist["rt"] += 1
-        ftoks = t[2:]
+        res.dist[kind] += 1
+        # the structure written last; `over`: the destination held other content before, `rewrite`: another file
+        # written by the same code
+        if kind == "rt":
+            ftoks = t[2:]
+        elif kind == "over":
+            ftoks = t[5:]
+            res.dist["destination:" + ("absent" if t[3] == "-" else "exists")] += 1
+        else:
+            ftoks = t[t.index("|") + 1:]
+        if kind != "rt":
+            res.nontrivial.add(op)
         nrec = int(ftoks[31])
         res.dist["records=%d" % min(nrec, 3)] += 1
         res.dist["high7" if ftoks[2] == "7" else "high<7"] += 1
@@ -94,17 +112,23 @@ def _cdrfile_common(ctx, res, replay_ops, want_spec):
         out = core.driver_run(spec_q)
         for i, o in zip(spec_idx, out):
             res.traces_validated += 1
-            ftoks = r.ops[i].split()[2:]
+            tt = r.ops[i].split()
+            ftoks = tt[2:] if tt[1] == "rt" else tt[5:] if tt[1] == "over" else tt[tt.index("|") + 1:]
             ot = o.split()
             if not (ot and ot[0] == "ok" and ot[1:] == ftoks):
+                how = {"rt": "", "over": " (the destination file existed before with other content)",
+                       "rewrite": " (the destination had been written by Encoding before, with another file)"}[tt[1]]
                 res.violation("layout", "independent TS 32.297 reader does not recover the structure from the "
-                              "bytes written by Encoding", [r.ops[i], "# impl bytes: " + spec_q[spec_idx.index(i)][:2000],
+                              "bytes written by Encoding" + how, [r.ops[i], "# impl bytes: " + spec_q[spec_idx.index(i)][:2000],
                                                             "# spec reader: " + o[:2000]])
     res.exhaustive = False
     res.extra["exhaustive_subspace"] = "all 64 (high,low) release-identifier pairs, each with extension octets iff 7"
     res.rule = ("well-formed CDRFile structures generated from the Go types (all 64 identifier pairs first, then "
                 "seeded random: field values at 0/max/random within TS 32.297 widths, filter/extension lengths "
-                "0,1,255..257,<40 (thorough: 65485..65535), 0-5 records); an input is non-trivial when it has "
+                "0,1,255..257,<40 (thorough: 65485..65535), 0-5 records); destinations that already exist: 48 files written over "
+                "other content (absent, 0, 1, len-1, len, len+1, len+54, 2len+100, len+4096, random, 70000 octets; permission bits "
+                "600/644/660/666) and 24 pairs of files written one after the other to the same path (longer first / shorter first), "
+                "the whole file on disk is read back (thorough: 400 + 200); an input is non-trivial when it has "
                 "records, an extension octet or a routeing filter; distinct = distinct operation lines")
 
 
@@ -116,10 +140,12 @@ def explore_c15(ctx, res, replay_ops=None):
     _cdrfile_common(ctx, res, replay_ops, want_spec=True)
 
 
-PROPS["C14"] = dict(lean=["ChfVerif.Props.C14"], explore=explore_c14,
-                    trusted=["os.WriteFile/os.ReadFile, encoding/binary (modelled)"])
-PROPS["C15"] = dict(lean=["ChfVerif.Props.C15"], explore=explore_c15,
-                    trusted=["Spec/TS32297.lean is my transcription of TS 32.297 clause 6.1 as restated in C15",
+PROPS["C14"] = dict(lean=["ChfVerif.Props.C14"], explore=explore_c14, gen=[_gen_late("cdrfile", "CdrFileFacts.lean")],
+                    trusted=["os.WriteFile/os.ReadFile, encoding/binary (modelled; how the destination is opened is regenerated by go/ast: "
+                             "harness/cmd/cdrfilefacts.go)"])
+PROPS["C15"] = dict(lean=["ChfVerif.Props.C15"], explore=explore_c15, gen=[_gen_late("cdrfile", "CdrFileFacts.lean")],
+                    trusted=["the file system is modelled (Model/CdrFile.lean writeOver); how Encoding opens its destination is regenerated "
+                             "by go/ast (harness/cmd/cdrfilefacts.go)","Spec/TS32297.lean is my transcription of TS 32.297 clause 6.1 as restated in C15",
                              "os.WriteFile, encoding/binary (modelled)"])
 
 
@@ -1088,44 +1114,86 @@ def gen_table(which, fname):
 # ------------------------------------------------------------------ C13
 
 def explore_c13(ctx, res, replay_ops=None):
-    r = ctx.stream("auth", 0, ops=replay_ops, with_model=False)
+    r = ctx.stream("auth", 0, ops=replay_ops)
     lists = set()
-    for i, (op, im) in enumerate(zip(r.ops, r.impl)):
+    valid_seen = {}      # service list -> the valid-token probes so far (the history a near miss is judged after)
+    accepted_valid = 0
+    for i, (op, im, mo) in enumerate(zip(r.ops, r.impl, r.model)):
         t = op.split()
+        if t[1] != "probe":
+            continue
+        if im == "n/a":
+            res.outside_domain["near-miss-does-not-exist"] += 1
+            continue
         res.evaluations += 1
         lists.add(t[2])
-        res.dist["token:" + t[5]] += 1
+        kind = t[5]
+        rctx = t[6] if len(t) > 6 else "live"
+        res.dist["token:" + kind] += 1
+        res.dist["context:" + rctx] += 1
         res.nontrivial.add(" ".join(t[2:5]))
         m = re.match(r"status=(\d+) pool=(\d+)>(\d+)", im)
         res.traces_validated += 1
+        # the replay of a probe is the probe after the valid tokens its service list has seen (order matters)
+        hist = valid_seen.setdefault(t[2], [])
+        rep = hist[-40:] + [op]
         if not m:
-            res.violation("oracle", "C13: probe crashed: " + im, [op])
+            res.violation("oracle", "C13: probe crashed: " + im, rep)
             continue
         st, b, a = int(m.group(1)), int(m.group(2)), int(m.group(3))
         path = bytes.fromhex(t[4]).decode()
         registered = not (path in ("/", "/chargingdata"))
+        mm = re.match(r"status=(\d+) handler=([01])$", mo)
+        if kind == "valid":
+            # a token signed by the NRF key: nothing is required of the answer; it is the history of what follows
+            hist.append(op)
+            res.dist["valid-token:status=%d" % st] += 1
+            if st != 401:
+                accepted_valid += 1
+            if mm and mm.group(2) == "1" and st == 401:
+                res.disagreements += 1
+                res.violation("correspondence", "auth: the router model lets a request with a token signed by the NRF key through, "
+                              "the implementation answered 401", rep + ["# impl: " + im, "# model: " + mo], found_input=False)
+            continue
+        after = "" if not hist else " after %d requests with a valid token had been served" % len(hist)
+        what = "token kind '%s'%s%s" % (kind, "" if rctx == "live" else ", request context " + rctx, after)
+        if not mm or (registered and (mm.group(1), mm.group(2)) != ("401", "0")) or (not registered and mm.group(2) != "0"):
+            res.disagreements += 1
+            res.violation("correspondence", "auth: the router model (regenerated paths of Check / AuthorizationCheck) does not reject "
+                          "a request with %s: %s" % (what, mo), rep + ["# impl: " + im, "# model: " + mo], found_input=False)
         if registered and st != 401:
-            res.violation("oracle", "C13: %s %s answered %d to a request with token kind '%s' (services %s)" % (
-                t[3], path, st, t[5], t[2]), [op, "# impl: " + im])
+            res.violation("oracle", "C13: %s %s answered %d to a request with %s (services %s)" % (
+                t[3], path, st, what, t[2]), rep + ["# impl: " + im])
         if not registered and st // 100 == 2:
-            res.violation("oracle", "C13: unregistered path %s answered %d" % (path, st), [op, "# impl: " + im])
+            res.violation("oracle", "C13: unregistered path %s answered %d" % (path, st), rep + ["# impl: " + im])
         if a != b:
-            res.violation("oracle", "C13: an unauthenticated request changed the subscriber pool", [op, "# impl: " + im])
+            res.violation("oracle", "C13: an unauthenticated request changed the subscriber pool", rep + ["# impl: " + im])
+        if " state-same=0" in im:
+            res.violation("oracle", "C13: a request with %s was processed: the charging state (subscribers, sessions, records, accounts, "
+                          "notifications) differs after it" % what, rep + ["# impl: " + im])
         if registered and st == 401 and " one=0" in im:
             res.violation("oracle", "C13: the 401 answer is not a single problem document: something ran after the rejection and wrote to the response",
-                          [op, "# impl: " + im])
-        res.sample({"op": op, "impl": im})
+                          rep + ["# impl: " + im])
+        res.sample({"op": op, "impl": im, "model": mo})
     res.exhaustive = True
     res.extra["service_lists"] = len(lists)
+    res.extra["valid_tokens_accepted"] = accepted_valid
     res.rule = ("exhaustive: every route gin registered for each of the 16 ordered lists of distinct service names x 13 token kinds "
                 "(absent, garbage, 'Bearer' garbage, alg=none JWT, HS256 JWT, RS512 JWT signed by another key, Basic, another scheme, lower-case bearer, three words; three of them also with no NRF certificate configured), OAuth2Required=true, "
-                "NRF certificate generated at run time; expects 401 and an unchanged subscriber pool; distinct = (services, method, path)")
+                "NRF certificate generated at run time; request contexts live / cancelled / past their deadline before the router sees the request; "
+                "histories: on every route a token signed by the NRF key first, then its 10 near misses (letter case of one letter of the signature, "
+                "claims or JOSE header changed, whole header lower-/upper-cased, signature truncated / one character replaced / dropped, lower-case scheme), "
+                "then all near misses on all routes again; expects 401, an unchanged subscriber pool and an unchanged digest of the whole charging state "
+                "from every request whose token is not signed by the NRF key, whatever was accepted before; the Lean router model "
+                "(regenerated control-flow paths of Check and AuthorizationCheck, every adversary, every feasible path) must predict the same; "
+                "distinct = (services, method, path)")
 
 
 PROPS["C13"] = dict(lean=["ChfVerif.Props.C13"], explore=explore_c13, gen=[gen_table("routes", "Routes.lean")],
                     trusted=["gin group/middleware/Abort semantics are modelled (Model/Router.lean)",
-                             "free5gc/openapi oauth.VerifyOAuth is abstracted as a predicate on tokens (probed with 6 kinds of bad token)",
-                             "the go/ast extractor in harness/cmd/routes.go (syntactic facts of newRouter) and gin's reported chain lengths"])
+                             "free5gc/openapi oauth.VerifyOAuth is abstracted as a predicate on tokens (probed with 13 kinds of bad token and 10 near misses of a valid one)",
+                             "the go/ast extractors in harness/cmd/routes.go (syntactic facts of newRouter) and harness/cmd/authast.go "
+                             "(control-flow paths of RouterAuthorizationCheck.Check and CHFContext.AuthorizationCheck), gin's reported chain lengths"])
 
 
 # ------------------------------------------------------------------ C17
@@ -1212,6 +1280,8 @@ def explore_c20(ctx, res, replay_ops=None):
         res.dist["removed=%d" % min(removed, 3)] += 1
         res.dist["scheme=" + t[3]] += 1
         res.dist["impl:" + im] += 1
+        for o in t[5:]:
+            res.dist["value:" + o] += 1
         res.nontrivial.add(op)
         if len(res.samples) < 5:
             res.sample({"op": op, "impl": im, "model": mo})
@@ -1230,17 +1300,21 @@ def explore_c20(ctx, res, replay_ops=None):
         if bad and im != "rejected":
             res.violation("oracle", "C20: configuration with scheme=%s services=%s was not rejected" % (t[3], t[4]), [op, "# impl: " + im])
     res.extra["exhaustive_subspace"] = "baseline, all single and all pairwise removals of 20 items x {http, https}" + (
-        ", all triples" if ctx.tier == "thorough" else "")
+        ", all triples" if ctx.tier == "thorough" else "") + (
+        "; baseline and all single removals under each of 7 value settings (Diameter protocol sctp / udp / absent for either "
+        "section, CGF enabled, all together), all pairs for the combined setting" + (" (thorough: for each)" if ctx.tier == "thorough" else ""))
     res.rule = ("YAML configurations derived from a valid baseline by removing subsets of 20 items (sections, TLS blocks, mandatory "
                 "scalars) and altering scheme (http/https/ftp/HTTP/absent) and serviceNameList (one/two/all three known names, a known name "
-                "twice, unknown names, empty); each is read by "
-                "factory.ReadConfig in its own process and, if accepted, the context, rating and account servers, the application "
-                "(SBI server) and the SBI listener are started; a panic in any goroutine kills the child = crash; distinct = variants")
+                "twice, unknown names, empty), the protocol of either Diameter section (tcp/sctp/udp/absent) and cgf.enable; each is read by "
+                "factory.ReadConfig in its own process and, if accepted, the CGF (when enabled), the context, rating and account servers, "
+                "the application (SBI server) and the SBI listener are started as pkg/service Start does; a panic in any goroutine kills "
+                "the child = crash; distinct = variants")
 
 
 PROPS["C20"] = dict(lean=["ChfVerif.Props.C20"], explore=explore_c20, gen=[gen_table("config", "Config.lean")],
                     trusted=["govalidator semantics (required/optional recursion) and yaml.v2 are modelled",
-                             "NRF registration and the FTP (CGF) server are not started (cgf.enable=false); MongoDB is the in-memory stand-in",
+                             "NRF registration is not started; the FTP (CGF) server is started only in the variants with cgf.enable=true (its login to the "
+                             "remote FTP host fails and is retried in the background); MongoDB is the in-memory stand-in",
                              "which sections the start-up code dereferences is hand-modelled (startsOK) and validated by starting every accepted variant"])
 
 
@@ -1248,6 +1322,28 @@ PROPS["C20"] = dict(lean=["ChfVerif.Props.C20"], explore=explore_c20, gen=[gen_t
 
 def _ber_run(ctx, res, replay_ops, n):
     r = ctx.stream("ber", n, ops=replay_ops)
+    # A Go runtime abort (fatal error: concurrent map writes, stack overflow, …) is not a panic: nothing recovers it and the
+    # harness process is gone.  Answers are flushed operation by operation, so the first missing answer belongs to the
+    # operation the process died in; the harness is restarted behind it.
+    r.crash_info = {}
+    restarts = 0
+    while "crash" in r.impl:
+        i = r.impl.index("crash")
+        err = core.LAST_STDERR.get("ber", "")
+        m = re.search(r"^(fatal error: .*|panic: .*|runtime: .*)$", err, flags=re.M)
+        r.crash_info[i] = (m.group(1) if m else err.strip().split("\n")[0] if err.strip() else "the harness process died")[:300]
+        r.impl[i] = "crash!"
+        restarts += 1
+        if restarts >= 25:
+            # enough: what lies behind was never run and is not judged
+            res.extra["operations_not_run_after_25_runtime_aborts"] = len(r.ops) - i - 1
+            r.ops, r.impl, r.model = r.ops[:i + 1], r.impl[:i + 1], r.model[:i + 1]
+            break
+        tail = r.ops[i + 1:]
+        if tail:
+            r.impl[i + 1:] = core.harness_run(ctx.harness, "ber", tail)
+    r.impl = ["crash" if x == "crash!" else x for x in r.impl]
+    res.extra["harness_restarts_after_runtime_abort"] = restarts
     for i, (op, im, mo) in enumerate(zip(r.ops, r.impl, r.model)):
         if im != mo:
             res.disagreements += 1
@@ -1255,6 +1351,17 @@ def _ber_run(ctx, res, replay_ops, n):
                           found_input=False)
             break
     return r
+
+
+def _ber_smallest_first(res):
+    """report the failing input that is shortest to read (the order of discovery is kept among equals)"""
+    res.violations.sort(key=lambda v: (not v["found_input"], len(v["replay"][0]) if v["found_input"] and v["replay"] else 0))
+
+
+def _ber_items(t):
+    """items (ty, params, arg) of an H or V operation (tokens after the stream name)"""
+    body = t[3:] if t[1] == "H" else t[4:]
+    return [tuple(body[k:k + 3]) for k in range(0, len(body) - 2, 3)]
 
 
 def _ty_class(ty):
@@ -1271,8 +1378,9 @@ def explore_c04(ctx, res, replay_ops=None):
         res.evaluations += 1
         res.dist[_ty_class(t[2])] += 1
         it = im.split(" ")
-        if it[0] in ("panic", "timeout"):
-            res.violation("oracle", "C04: marshalling panicked", [op[:20000], "# impl: " + im[:200]])
+        if it[0] in ("panic", "timeout", "crash"):
+            res.violation("oracle", "C04: marshalling panicked" + (" (%s)" % r.crash_info.get(i, "") if it[0] == "crash" else ""),
+                          [op[:20000], "# impl: " + im[:200]])
             continue
         if it[0] == "err":
             res.dist["marshal-error"] += 1
@@ -1295,51 +1403,140 @@ def explore_c04(ctx, res, replay_ops=None):
         if sp != "ok " + im[1]:
             res.violation("oracle", "C04: the marshalled octets differ from the reference X.690 encoder",
                           [r.ops[i][:20000], "# impl:      " + r.impl[i][:3000], "# reference: " + sp[:3000]])
+    _ber_smallest_first(res)
     res.rule = ("type-directed random values of all 195 cdrType types (optional members toggled at 0/30/70/100%, every CHOICE alternative, "
                 "lists of 0-3 elements, boundary integers, strings/octets of length 0..9 and (thorough) 126..257, 1000), the CHF record with "
                 "'explicit,choice', primitives with top-level parameters (tags 0/30/31/128/2^21-1, explicit, string kinds) and generated "
-                "struct/choice/list types in the same tag language (distinct tags per struct, high-tag bases, explicit, set); each marshalled "
-                "value is checked by the Lean X.690 walker and against the Lean reference encoder; non-trivial = successful marshal")
+                "struct/choice/list types in the same tag language (distinct tags per struct, high-tag bases, explicit, set); values that "
+                "cannot be marshalled at every position (CHOICE Present 0 / negative / past the last / nil alternative, nil pointer elements "
+                "and mandatory members, OBJECT IDENTIFIER and unsupported kinds; in the first / a middle / the last element of lists of 1-4 "
+                "elements, in any member, under any nesting; one to three places per value) of every schema type and of generated types: "
+                "the answer must be an error or the reference encoding, never a panic; each marshalled "
+                "value is checked by the Lean X.690 walker and against the Lean reference encoder (which has no encoding for those values); "
+                "non-trivial = successful marshal")
+
+
+def _c05_item(res, op, ty, ps, arg, it, errs, where="", dom=True, mo=()):
+    """judge one marshal-then-unmarshal answer (tokens `it`) for the value `arg` of type `ty`.
+    dom: the Lean driver says (type, parameters) is in the domain of the round-trip law (Spec/C05Domain.lean: the shapes
+    Props.C05.C05_domain covers, which include every schema type); mo: the model's answer for the same item."""
+    if it[0] in ("panic", "timeout", "crash"):
+        res.violation("oracle", "C05: marshal/unmarshal panicked" + where, [op[:20000], "# impl: " + " ".join(it)[:200]])
+        return
+    if it[0] == "err":
+        # constructs the codec does not support must be *reported* (OID, open type, unselected CHOICE, nil where a value is
+        # needed); whether the value is such a one is not guessed from the notation but asked of the Lean reference encoder below
+        res.dist["marshal-error"] += 1
+        errs.append((op, ty, ps, arg, where))
+        return
+    if not dom and not (len(mo) >= 4 and mo[0] == "ok" and mo[2] == "ok" and mo[3] == arg):
+        # outside the law's domain (a shape whose members / alternatives the decoder cannot tell apart by tag number: no schema
+        # type is one) and the decoder model does not bring this value back either: not judged; model and code are still compared
+        res.outside_domain["generated type outside the round-trip domain (untagged CHOICE member, SET / absent OPTIONAL member and "
+                           "a later member with the same tag number, EXPLICIT member): value does not round-trip in the model"] += 1
+        if len(it) > 4 and it[2] in ("ok", "err") and it[-1] in ("moved", "unstable"):
+            res.violation("oracle", "C05: the marshalled octets changed after marshal had returned them (%s)%s" % (" ".join(it[4:]), where),
+                          [op[:20000], "# impl: " + " ".join(it)[:3000]])
+        return
+    res.dist["round trip judged: " + ("in the proved domain" if dom else "outside it, the model round-trips the value")] += 1
+    res.traces_validated += 1
+    res.nontrivial.add(op)
+    if len(it) < 4 or it[2] != "ok":
+        res.violation("oracle", "C05: the marshalled octets could not be unmarshalled into the same type" + where, [op[:20000], "# impl: " + " ".join(it)[:3000]])
+    elif it[3] != arg:
+        res.violation("oracle", "C05: decode(encode(v)) differs from v" + where, [op[:20000], "# impl: " + " ".join(it)[:3000]])
+    elif len(it) > 4:
+        res.violation("oracle", "C05: the marshalled octets changed after marshal had returned them (%s)%s" % (" ".join(it[4:]), where),
+                      [op[:20000], "# impl: " + " ".join(it)[:3000]])
+    elif len(res.samples) < 5 and len(op) < 400:
+        res.sample({"op": op, "impl": " ".join(it)})
 
 
 def explore_c05(ctx, res, replay_ops=None):
     r = _ber_run(ctx, res, replay_ops, n_for(ctx, 300, 3000))
+    errs = []
+    # which (type, parameters) are in the domain of the round-trip law is decided by the Lean driver
+    pairs = set()
+    for op in r.ops:
+        t = op.split(" ")
+        if t[1] == "R":
+            pairs.add((t[2], t[3]))
+        elif t[1] == "H":
+            pairs.update((ty, ps) for (ty, ps, _) in _ber_items(t))
+    pairs = sorted(pairs)
+    dom = dict(zip(pairs, (a == "in" for a in core.driver_run(["ber dom %s %s" % pr for pr in pairs])))) if pairs else {}
     for i, (op, im) in enumerate(zip(r.ops, r.impl)):
         t = op.split(" ")
-        if t[1] != "R":
-            continue
-        res.evaluations += 1
-        res.dist[_ty_class(t[2])] += 1
-        it = im.split(" ")
-        if it[0] in ("panic", "timeout"):
-            res.violation("oracle", "C05: marshal/unmarshal panicked", [op[:20000], "# impl: " + im[:200]])
-            continue
-        if it[0] == "err":
-            # constructs the codec does not support must be *reported*: OID or open type somewhere in the type
-            res.dist["marshal-error"] += 1
-            if "O" not in t[2] and "C[]" not in t[2] and "{0,-,0,0,1" not in t[2] and "cN" not in (t[4] if len(t) > 4 else ""):
-                v = t[4] if len(t) > 4 else ""
-                if not re.search(r"c0\[|;N|\[N", v):
-                    res.violation("oracle", "C05: a value of a supported type failed to marshal", [op[:20000], "# impl: " + im[:200]])
-            continue
-        res.traces_validated += 1
-        res.nontrivial.add(op)
-        arg = t[4] if len(t) > 4 else ""
-        if len(it) < 4 or it[2] != "ok":
-            res.violation("oracle", "C05: the marshalled octets could not be unmarshalled into the same type", [op[:20000], "# impl: " + im[:3000]])
-        elif it[3] != arg:
-            res.violation("oracle", "C05: decode(encode(v)) differs from v", [op[:20000], "# impl: " + im[:3000]])
-        elif len(res.samples) < 5 and len(op) < 400:
-            res.sample({"op": op, "impl": im})
+        if t[1] == "R":
+            res.evaluations += 1
+            res.dist[_ty_class(t[2])] += 1
+            _c05_item(res, op, t[2], t[3], t[4] if len(t) > 4 else "", im.split(" "), errs, dom=dom[(t[2], t[3])], mo=r.model[i].split(" "))
+        elif t[1] == "H":
+            # a history of marshal calls: every result is unmarshalled only after all calls have returned and the
+            # arguments have been overwritten
+            res.evaluations += 1
+            res.dist["history-" + t[2]] += 1
+            items = _ber_items(t)
+            if im in ("panic", "timeout", "crash"):
+                res.violation("oracle", "C05: a history of marshal calls %s%s" % (im, " (%s)" % r.crash_info.get(i, "") if im == "crash" else ""),
+                              [op[:20000], "# impl: " + im[:200]])
+                continue
+            answers = im.split(" | ")
+            if len(answers) != len(items):
+                res.violation("oracle", "C05: a history of %d marshal calls gave %d answers" % (len(items), len(answers)), [op[:20000], "# impl: " + im[:3000]])
+                continue
+            mos = r.model[i].split(" | ")
+            for k, ((ty, ps, arg), a) in enumerate(zip(items, answers)):
+                _c05_item(res, op, ty, ps, arg, a.split(" "), errs, " (call %d of %d of a history, mode %s)" % (k + 1, len(items), t[2]),
+                          dom=dom[(ty, ps)], mo=mos[k].split(" ") if k < len(mos) else ())
+    # marshal errors: the value must be one the independent encoder has no encoding for either
+    if errs:
+        out = core.driver_run(["ber spec %s %s %s" % (ty, ps, arg) for (_, ty, ps, arg, _) in errs])
+        for (op, ty, ps, arg, where), sp in zip(errs, out):
+            res.dist["marshal-error, no reference encoding either" if sp == "none" else "marshal-error, reference encodes"] += 1
+            if sp != "none":
+                res.violation("oracle", "C05: a value of a supported type failed to marshal (the reference encoder encodes it)" + where,
+                              [op[:20000], "# reference: " + sp[:3000]])
+    _ber_smallest_first(res)
     res.rule = ("same value generator as C04; each marshalled value is unmarshalled into a fresh variable of the same type with the same "
                 "parameters and compared structurally (nil pointers, nil vs empty lists distinguished); all 26 boundary integers; "
-                "non-trivial = value that marshals")
+                "histories of 2-6 marshal calls (same value repeated, same type, mixed types; lengths falling, rising, equal) in one goroutine "
+                "or one goroutine per value: every returned slice is kept, the arguments' buffers are overwritten, and only then every slice is "
+                "compared with its copy and unmarshalled; a marshal error must be matched by the reference encoder having no encoding; "
+                "the round trip is judged for every (type, parameters) the Lean driver places in the domain of Props.C05.C05_domain (all "
+                "schema types, primitives under any tagging) and, outside it, for every value the decoder model brings back; the rest is "
+                "counted under outside_property_domain (model and code are still compared); non-trivial = value that marshals")
 
 
 def explore_c16(ctx, res, replay_ops=None):
     r = _ber_run(ctx, res, replay_ops, n_for(ctx, 400, 5000))
     for i, (op, im) in enumerate(zip(r.ops, r.impl)):
         t = op.split(" ")
+        if t[1] == "V":
+            # several goroutines decode the items at once, into struct types the process has not decoded before, twice
+            res.evaluations += 1
+            items = _ber_items(t)
+            res.dist["concurrent:%s goroutines" % t[2]] += 1
+            res.traces_validated += 1
+            res.nontrivial.add(op)
+            if im in ("panic", "timeout", "crash"):
+                res.violation("oracle", "C16: concurrent Unmarshal calls: %s%s" % (
+                    im, " - the process was aborted by the Go runtime: " + r.crash_info.get(i, "") if im == "crash" else ""),
+                    [op[:20000], "# impl: " + im[:200]])
+                continue
+            answers = im.split(" | ")
+            for k, a in enumerate(answers):
+                a0 = a.split(" ")[0]
+                res.dist["outcome:" + a0] += 1
+                if a0 == "diverge":
+                    res.violation("oracle", "C16: the same octets unmarshalled into the same type gave different answers (item %d; %s goroutines, "
+                                  "two passes): Unmarshal is not a function of its input" % (k + 1, t[2]), [op[:20000], "# impl: " + im[:3000]])
+                elif a0 not in ("ok", "err"):
+                    res.violation("oracle", "C16: Unmarshal %s on arbitrary octets (item %d of a concurrent decoding)" % (a0, k + 1),
+                                  [op[:20000], "# impl: " + im[:3000]])
+            if len(answers) != len(items):
+                res.violation("oracle", "C16: %d concurrent decodings gave %d answers" % (len(items), len(answers)), [op[:20000], "# impl: " + im[:3000]])
+            continue
         if t[1] != "U":
             continue
         res.evaluations += 1
@@ -1349,21 +1546,30 @@ def explore_c16(ctx, res, replay_ops=None):
         res.dist["outcome:" + it[0]] += 1
         res.traces_validated += 1
         if it[0] not in ("ok", "err"):
-            res.violation("oracle", "C16: Unmarshal %s on arbitrary octets" % it[0], [op[:20000], "# impl: " + im[:200]])
+            res.violation("oracle", "C16: Unmarshal %s on arbitrary octets%s" % (it[0], " (%s)" % r.crash_info.get(i, "") if it[0] == "crash" else ""),
+                          [op[:20000], "# impl: " + im[:200]])
         res.nontrivial.add(op)
         if len(res.samples) < 6 and len(op) < 300:
             res.sample({"op": op, "impl": im[:120]})
+    _ber_smallest_first(res)
     res.rule = ("octet strings decoded under recover() with a 10 s deadline: the empty string, every 1-octet and a lattice of 2-octet "
                 "strings into 7 primitive targets (thorough: all 1- and a finer lattice of 2-octet strings), and truncations, single-bit flips, "
                 "rewritten length octets (00,7f,80,81,82,83,84,ff), appended octets, deletions and random strings against valid encodings of "
-                "schema types; outcome class compared with the Lean decoder model (ok value / error / panic)")
+                "schema types; outcome class compared with the Lean decoder model (ok value / error / panic); 2-11 valid, damaged and empty "
+                "encodings (and all 195 schema types from the empty SEQUENCE) decoded twice by 2/4/8 goroutines at once into struct types that "
+                "are new to the process in every operation: every decoding must answer, and answer what the sequential model answers; a Go "
+                "runtime abort (not recoverable) is attributed to the operation the harness died in and the harness is restarted")
 
 
 _ber_trust = ["Go reflect, and the table emitter classifying struct types (Value/List/Present conventions) in harness/cmd/ber.go",
               "Spec/X690.lean is my transcription of X.690 (no copy of the standard in the sandbox)"]
 PROPS["C04"] = dict(lean=["ChfVerif.Props.C04"], explore=explore_c04, gen=[gen_table("schema", "Schema.lean")], trusted=_ber_trust)
-PROPS["C05"] = dict(lean=["ChfVerif.Props.C05"], explore=explore_c05, gen=[gen_table("schema", "Schema.lean")], trusted=_ber_trust)
-PROPS["C16"] = dict(lean=["ChfVerif.Props.C16"], explore=explore_c16, trusted=_ber_trust)
+_ber_state_trust = ["the go/ast extractor of cdr/asn's package-level variables (harness/cmd/asnglobals.go) and the reading of its facts as a frame "
+                    "condition on calls (CodecState.Respects): a variable nothing assigns to, takes the address of or calls a method on is not changed by a call"]
+PROPS["C05"] = dict(lean=["ChfVerif.Props.C05"], explore=explore_c05,
+                    gen=[gen_table("schema", "Schema.lean"), gen_table("asnglobals", "AsnGlobals.lean")], trusted=_ber_trust + _ber_state_trust)
+PROPS["C16"] = dict(lean=["ChfVerif.Props.C16"], explore=explore_c16, gen=[gen_table("asnglobals", "AsnGlobals.lean")],
+                    trusted=_ber_trust + _ber_state_trust)
 
 
 # ------------------------------------------------------------------ C03  (CDR files written by the CHF)
@@ -1372,6 +1578,10 @@ C03_LIMIT = 65535
 
 
 def explore_c03(ctx, res, replay_ops=None):
+    from . import recber
+    if replay_ops and replay_ops[0].startswith("recber "):
+        recber.recber_phase(ctx, res, "C03", ops=replay_ops)
+        return
     r = ctx.stream("cdrsize", n_for(ctx, 60, 900), ops=replay_ops, with_model=False)
     kf = ctx.kf_classes()
     q, qi = [], []
@@ -1469,6 +1679,15 @@ def explore_c03(ctx, res, replay_ops=None):
         elif kind in ("update", "fit", "fiton", "release") and d.get("st") in ("200", "204"):
             res.violation("oracle", "C03: a successful %s wrote no CDR file" % kind, replay + ["# impl: " + im[:200]])
         prevs[sub] = sizes
+    # --- the records' octets and the guard's decisions against the record encoder model (Model/RecordBer.lean)
+    starts, s0 = [], 0
+    for i, op in enumerate(r.ops):
+        if op.split(" ")[1:2] == ["reset"]:
+            s0 = i
+        starts.append(s0)
+    recber.cdrsize_records(ctx, res, "C03", r.ops, obs, lambda i: starts[i])
+    if replay_ops is None:
+        recber.recber_phase(ctx, res, "C03")
     res.rule = ("offline charging sessions through the real router: one session growing by 40 (thorough 160) updates across the 127/255/65535 "
                 "header boundaries; updates of 2300..2610 containers landing below/at/above the limit followed by small updates and a release "
                 "that adds usage; updates sized at run time so that len(record)+len(usage) = 65535+d for d in -8..2 on a fresh and on a grown "
@@ -1558,14 +1777,24 @@ def _explore_peer(ctx, res, replay_ops, which):
         res.evaluations += 1
         kind = "count" if any(x.startswith("N") for x in steps) else "faults"
         res.dist["scenario:" + kind] += 1
+        quiet = True       # no answer later than the client's timeout, no relay: every socket must be gone at a C step
         for x in steps:
             if x[0] == "D":
                 res.dist["answers-delivered-%s-times" % x[1:]] += 1
+                quiet = False
             if x[0] == "F":
                 res.dist["final-report"] += 1
             if x[0] in "AR":
                 d = int(x[1:])
                 res.dist["%s-delay:%s" % (x[0], "prompt" if d < 5000 else "late" if d < 20000 else "lost")] += 1
+                if d >= 5000:
+                    quiet = False
+            if x[0] == "H":
+                d = int(x[2:])
+                res.dist["%s-connection-setup:%s" % (x[1], "<2s" if d < 2000 else "2-5s" if d < 5000 else ">5s")] += 1
+            if x[0] == "Q":
+                res.dist["stored-document:%s" % {"0": "quota-a-number", "1": "quota-missing", "2": "quota-not-numeric",
+                                                 "3": "unitCost-a-number", "4": "unitCost-missing", "9": "restored"}.get(x[1:], x[1:])] += 1
         if im.split(" ")[0] in ("crash", "panic", "timeout", "create-failed", "bad-op"):
             res.violation("oracle", "%s: scenario did not run (%s)" % (which, im[:100]), [op, "# impl: " + im[:300]])
             continue
@@ -1607,6 +1836,12 @@ def _explore_peer(ctx, res, replay_ops, which):
                     bad = "connections / background tasks left behind after completed requests: %s established, goroutine bucket %s" % (f[0], f[1])
                 elif len(f) > 4 and int(f[4]) > 0:
                     bad = "%s answer handler task(s) (HandleSUA/HandleCCA) left behind, blocked for ever, after the requests had returned" % f[4]
+                elif len(f) > 5 and int(f[5]) > 0:
+                    bad = ("%s request handler task(s) of the rating / account-balance server still running after every request had "
+                           "returned (not counting handlers the script keeps asleep)" % f[5])
+                elif len(f) > 6 and quiet and int(f[6]) > 0:
+                    bad = ("%s socket(s) on the Diameter ports still held by the process (any state but LISTEN) after every request "
+                           "had returned and every answer had been in time or would never come" % f[6])
                 elif len(f) > 3 and int(f[3]) > 0:
                     bad = ("%s go-diameter watchdog task(s) still running after every request had returned and every connection was closed "
                            "(one per request whose answer did not arrive within the timeout; %s goroutines above the baseline)" % (f[3], f[2]))
@@ -1631,7 +1866,12 @@ def _explore_peer(ctx, res, replay_ops, which):
                 "patterns of prompt / 0.8 s / 2.5 s / late / lost answers, each answer delivered once, twice or three times (a relay in front "
                 "of the real servers repeats it); runs of timed-out requests followed by a count of go-diameter watchdog goroutines and of "
                 "answer handlers that have not returned; final reports (debit-mode settlement) whose account-balance answer is slow, late "
-                "or lost, followed by the next reservation. Every update must complete within 14 s, must not return while a request it made "
+                "or lost, followed by the next reservation; peers that accept the connection and take 0.3-6.5 s over the TLS handshake "
+                "(a TCP proxy in front of the servers holds the server's first octets back), for either client, alone, as the last "
+                "dial of an update, several in a row, and combined with answers that are in time by themselves but later than 5 s "
+                "after the dial began; stored account documents the servers cannot digest (quota / unitCost a number, missing, not "
+                "numeric), so that the server-side handler fails without answering: request handler tasks of the two servers and "
+                "sockets in any state are counted as well. Every update must complete within 14 s, must not return while a request it made "
                 "is unanswered before any time-out, and act only on the "
                 "answer to its own account-balance request (identified by the amount: each request tops up by a distinct sum of powers "
                 "of two); observations are compared with the client machines of Model/DiamClient.lean (who answered, elapsed time within "
@@ -1657,7 +1897,8 @@ def explore_c19(ctx, res, replay_ops=None):
 
 
 _peer_trust = ["go-diameter (state machine, mux locking, connection teardown) is modelled from reading its source, not verified",
-               "the go/ast fact extractor harness/cmd/diamclient.go (defer conn.Close, channel made per request, select-default send)",
+               "the go/ast fact extractor harness/cmd/diamclient.go (defer conn.Close, channel made per request, select-default send, "
+               "synchronous dial: no go statement in the client function)",
                "real-time scenarios: delays keep 1.5 s clear of the 5 s timeout; the exact race is the model's business"]
 PROPS["C18"] = dict(lean=["ChfVerif.Props.C18"], explore=explore_c18, gen=[gen_table("diamclient", "DiamClient.lean")], trusted=_peer_trust)
 PROPS["C19"] = dict(lean=["ChfVerif.Props.C19"], explore=explore_c19, gen=[gen_table("diamclient", "DiamClient.lean")], trusted=_peer_trust)
